@@ -338,17 +338,25 @@ class Scenario:
         for name, ex in self.conds[1:]:
             o.append(('%x ' if ex else '%s ') + name)
         o.append('%%')
+        open_scope = None       # condition list of the scope(s) currently open (scoped rendering only)
         for i in range(len(self.rules)):
             r = self.rules[i]
-            if self.scoped and r.conds and not r.star and not r.is_eof:
-                # <A>{ <B>{ rule } }: nested scopes add their conditions to the rule
-                for c in r.conds:
-                    o.append('<%s>{' % self.cond_name(c))
-                o.append(self.rule_line(i, with_conds=False))
-                for c in r.conds:
-                    o.append('}')
-            else:
+            if not self.scoped:
                 o.append(self.rule_line(i))
+                continue
+            # <A>{ <B>{ rule ... } }: nested scopes add their conditions to the rules inside; a run of rules
+            # naming the same conditions shares one scope, and <*> rules met inside the run stay inside it
+            # (a nested <*> names every condition for that one rule only)
+            key = tuple(r.conds) if (r.conds and not r.star and not r.is_eof) else None
+            if open_scope is not None and not (key == open_scope or (r.star and not r.is_eof)):
+                o.extend('}' for _ in open_scope)
+                open_scope = None
+            if open_scope is None and key is not None:
+                o.extend('<%s>{' % self.cond_name(c) for c in key)
+                open_scope = key
+            o.append(self.rule_line(i, with_conds=(open_scope is None)) if not r.star else self.rule_line(i))
+        if open_scope is not None:
+            o.extend('}' for _ in open_scope)
         o.append('%%')
         o.append('#include "sim_scn.h"')
         return '\n'.join(o) + '\n'
